@@ -179,7 +179,14 @@ def _ranges_below_dim(f, idx):
     from rules.decoder import loop_bounds
     lb = loop_bounds(f, idx)
     if lb is None:
-        return False
+        # `for (i, v) in xs.iter().enumerate().take(n)` / `.take(n).enumerate()`: i < n
+        n = _take_bound(f, idx)
+        if n is None:
+            return False
+        up = mir.strip_refs(n)
+        if _is_dim_call(up):
+            return True
+        return up[0] == "call" and isinstance(up[1], str) and up[1].endswith("::min") and any(_is_dim_call(a) for a in up[2])
     lo, hi = lb
     if not (len(hi[0]) == 1 and hi[1] == 0 and list(hi[0].values())[0] == 1):
         return False
@@ -188,6 +195,37 @@ def _ranges_below_dim(f, idx):
         return True
     # min(x, dim()) is also bounded by dim()
     return up[0] == "call" and isinstance(up[1], str) and up[1].endswith("::min") and any(_is_dim_call(a) for a in up[2])
+
+
+def _take_bound(f, idx):
+    """if idx is the counter of an Enumerate over an iterator limited by take(n): n"""
+    import pertuple
+    t = idx
+    while t[0] == "proj":
+        t = t[1]
+    if t[0] != "call" or not isinstance(t[1], str) or not t[1].endswith("::next"):
+        return None
+    it = mir.strip_refs(t[2][0])
+    if it[0] != "loopphi":
+        return None
+    lps = [l for l in f.loops() if l.header == it[1][0]]
+    if not lps:
+        return None
+    x = pertuple.iterator_entry_value(f, lps[0])
+    enum = False
+    bound = None
+    for _ in range(6):
+        if x is None or x[0] != "call" or not isinstance(x[1], str) or not x[2]:
+            break
+        tail = x[1].rsplit("::", 1)[-1]
+        if tail == "enumerate":
+            enum = True
+        elif tail == "take" and len(x[2]) > 1:
+            bound = x[2][1]
+        elif tail not in ("into_iter", "iter", "iter_mut", "by_ref"):
+            break
+        x = mir.strip_refs(x[2][0])
+    return bound if enum and bound is not None else None
 
 
 def _is_dim_call(t):
